@@ -265,6 +265,11 @@ func RunCheck(prop, tier string) int {
 	}
 	wg.Wait()
 	os.RemoveAll(filepath.Join(dir, ".build", "tmp"))
+	if m, _ := filepath.Glob(filepath.Join("/dev/shm", "colverif-tmp", fmt.Sprintf("w%d-*", os.Getpid()))); len(m) > 0 {
+		for _, d := range m {
+			os.RemoveAll(d)
+		}
+	}
 
 	// ---- report
 	var unitStats []map[string]any
@@ -348,8 +353,14 @@ func anySplit(us []Unit) bool {
 	return false
 }
 
+// workerTmp returns a private scratch directory for one worker, on tmpfs when there
+// is one (every Snapshot creates and removes a temp file).
 func workerTmp(dir string, w int) string {
-	p := filepath.Join(dir, ".build", "tmp", fmt.Sprintf("w%d-%d", os.Getpid(), w))
+	base := filepath.Join(dir, ".build", "tmp")
+	if st, err := os.Stat("/dev/shm"); err == nil && st.IsDir() {
+		base = filepath.Join("/dev/shm", "colverif-tmp")
+	}
+	p := filepath.Join(base, fmt.Sprintf("w%d-%d", os.Getpid(), w))
 	os.MkdirAll(p, 0o755)
 	return p
 }
